@@ -451,12 +451,14 @@ pub fn gen_map(t: &mut Tape, p: &MapProfile) -> MapSpec {
                         _ => -(t.range(1, 500) as f64),
                     }
                 } else {
-                    match t.weighted(&[60, 20, 10, 1]) {
+                    match t.weighted(&[60, 20, 10, 1, 15]) {
                         0 => t.range(80, 1500) as f64,
                         1 => t.range(1, 99) as f64,
                         2 => 0.0,
                         // hours-long hold note: its combo alone exceeds 65535
-                        _ => t.range(6_600_000, 30_000_000) as f64,
+                        3 => t.range(6_600_000, 30_000_000) as f64,
+                        // exact multiples of the 100 ms combo interval
+                        _ => (t.range(1, 12) * 100) as f64,
                     }
                 };
                 ObjKind::Hold { end: time + d }
@@ -533,11 +535,13 @@ pub fn gen_map(t: &mut Tape, p: &MapProfile) -> MapSpec {
 }
 
 fn gen_beat_len(t: &mut Tape, adversarial: bool) -> f64 {
-    let w: &[u32] = if adversarial { &[8, 4, 2] } else { &[8, 4, 0] };
+    let w: &[u32] = if adversarial { &[8, 4, 2, 0] } else { &[16, 8, 0, 1] };
     match t.weighted(w) {
         0 => *t.pick(BEAT_LENS),
         1 => 60_000.0 / (t.range(30, 400) as f64),
-        _ => *t.pick(&[6.0, 60_000.0, 1.0, 0.0, 100_000.0, 5.999]),
+        2 => *t.pick(&[6.0, 60_000.0, 1.0, 0.0, 100_000.0, 5.999]),
+        // 1-2 BPM: a slider then spans tens of seconds between two ticks (hundreds of tiny droplets in catch)
+        _ => *t.pick(&[60_000.0, 40_000.0, 30_000.0]),
     }
 }
 
